@@ -244,11 +244,11 @@ pub fn run(r: &mut Report, ctx: &Ctx) {
         r.section(
             "generated-prefix",
             "every Ok hash the real generator yields for every prefix length of five streams, every variant, all 32 option settings: checksum().is_valid(), length().is_valid(), checksum byte <= 48 on the 48-bucket variant, code < 170, and the hash survives a text and a binary round trip through the parser of this (strict) build; non-trivial = states with at least one Ok hash",
-            &format!("n in 0..={top} x 5 streams x 5 variants x 32 options"),
+            &format!("n in 0..={top} x 6 streams x 5 variants x 32 options"),
             true,
             |s| {
                 let streams = &streams;
-                s.acc = par_for(25, 1, |idx, acc| {
+                s.acc = par_for(5 * streams.len() as u64, 1, |idx, acc| {
                     let st = streams[(idx / 5) as usize];
                     let key = idx << 40;
                     match idx % 5 {
@@ -293,6 +293,57 @@ pub fn run(r: &mut Report, ctx: &Ctx) {
                 });
             },
         );
+        {
+            // hashes generated from one large update at every power-of-two threshold (a bulk path must keep the checksum fold)
+            let kmax: u32 = if quick { 20 } else { 24 };
+            let ks: Vec<u32> = (5..=kmax).collect();
+            let deltas: [i64; 3] = [-1, 0, 5];
+            let prefills: [usize; 3] = [0, 3, 67];
+            let total = (2 * ks.len() * deltas.len() * prefills.len() * 5) as u64;
+            r.section(
+                "generated-large-pieces",
+                "as generated-prefix for inputs fed as: p bytes, ONE piece of 2^k + d bytes, then 3 bytes or nothing (k up to the bound, d in {-1,0,5}, p in {0,3,67}), every variant, all 32 options: every Ok hash is strict-valid and survives the round trips; non-trivial = inputs with at least one Ok hash",
+                &format!("k in 5..={kmax} x 3 deltas x 3 pre-fills x 5 variants x 32 options"),
+                true,
+                |s| {
+                    let ks = &ks;
+                    s.acc = par_for(total, 1, |idx, acc| {
+                        let v = (idx % 5) as usize;
+                        let (i, with_suffix) = (idx / 10, (idx / 5) % 2 == 1);
+                        let d = deltas[(i % 3) as usize];
+                        let p = prefills[((i / 3) % 3) as usize];
+                        let k = ks[ks.len() - 1 - (i / 9) as usize];
+                        let piece = ((1i64 << k) + d) as usize;
+                        let pieces_all = [p, piece, 3];
+                        let pieces = &pieces_all[..if with_suffix { 3 } else { 2 }];
+                        acc.evals += 1;
+                        acc.transitions += 35;
+                        fn go<V: Variant>(pieces: &[usize]) -> Result<u64, String> {
+                            let data = Stream::Mixed.bytes(0, pieces.iter().sum());
+                            let mut g = V::new_gen();
+                            let mut off = 0;
+                            for &p in pieces {
+                                g.update(&data[off..off + p]);
+                                off += p;
+                            }
+                            judge_generated_all::<V>(&g)
+                        }
+                        match with_variant!(v, go(pieces)) {
+                            Ok(oks) => {
+                                if oks > 0 {
+                                    acc.nontrivial += 1;
+                                }
+                                acc.outcomes.insert(oks);
+                                if idx % 97 == 0 {
+                                    acc.sample(idx, || json!({"variant": VARIANT_NAMES[v], "pieces": pieces, "ok_settings": oks}));
+                                }
+                            }
+                            Err(e) => acc.fail(idx, "generated-large-pieces", e, json!({"kind": "pieces", "variant": VARIANT_NAMES[v], "pieces": pieces})),
+                        }
+                    });
+                },
+            );
+        }
         #[cfg(fast_tlsh_verif)]
         {
             use crate::refmodel::tables::TOPVAL;
@@ -381,6 +432,21 @@ pub fn replay(case: &Value) -> Result<(), String> {
                 judge_generated_all::<V>(&fresh_fed::<V>(d)).map(|_| ())
             }
             with_variant!(v, go(&d))
+        }
+        "pieces" => {
+            let v = case["variant"].as_str().ok_or("variant")?;
+            let pieces: Vec<usize> = case["pieces"].as_array().ok_or("pieces")?.iter().map(|x| x.as_u64().unwrap() as usize).collect();
+            fn go<V: Variant>(pieces: &[usize]) -> Result<(), String> {
+                let data = Stream::Mixed.bytes(0, pieces.iter().sum());
+                let mut g = V::new_gen();
+                let mut off = 0;
+                for &p in pieces {
+                    g.update(&data[off..off + p]);
+                    off += p;
+                }
+                judge_generated_all::<V>(&g).map(|_| ())
+            }
+            with_variant!(v, go(&pieces))
         }
         k => Err(format!("replay kind {k}: re-run the check")),
     }
